@@ -33,6 +33,10 @@ pub enum PayloadKind {
     /// `prefix` ASCII bytes, then one 3- or 4-byte character, then multi-byte text: used to put a
     /// character across the preview limit / the read size / the cap
     Utf8Straddle { prefix: usize, four: bool },
+    /// multi-byte text with stray bytes that are invalid anywhere in UTF-8 (0xFF / 0xFE) between
+    /// characters: mixed text and binary, whose lossy decoding does not depend on where it is cut as
+    /// long as no valid character is split
+    Utf8Dirty,
 }
 
 #[derive(Clone, Debug, Serialize, Deserialize, PartialEq)]
@@ -73,6 +77,19 @@ impl Payload {
             PayloadKind::Binary => {
                 out.resize(self.len, 0);
                 rng.fill(&mut out);
+            }
+            PayloadKind::Utf8Dirty => {
+                let units = ["é", "日本語", "🙂", "x", "ab", "ß\n", " ", "Ω", "🎉🎉", "line\n"];
+                loop {
+                    let u = units[rng.usize_below(units.len())].as_bytes();
+                    if out.len() + u.len() > self.len {
+                        break;
+                    }
+                    out.extend_from_slice(u);
+                    if rng.chance(1, 12) && out.len() < self.len {
+                        out.push(if rng.chance(1, 2) { 0xFF } else { 0xFE });
+                    }
+                }
             }
             PayloadKind::Utf8Straddle { prefix, four } => {
                 let mut st = "a".repeat(prefix);
@@ -203,6 +220,17 @@ pub fn generate(run_seed: u64, tier: Tier) -> Scenario {
             forced_first_seg = Some(prefix + rng.range(1, width as u64 - 1) as usize);
         }
     }
+    // 1 in 6 (own sub-stream): text with stray invalid bytes in it
+    let mut err = err;
+    let mut dirty = Rng::derive(run_seed, "c17:dirty");
+    if dirty.chance(1, 6) {
+        if !matches!(out.kind, PayloadKind::Utf8Straddle { .. }) {
+            out.kind = PayloadKind::Utf8Dirty;
+        }
+        if dirty.chance(1, 2) {
+            err.kind = PayloadKind::Utf8Dirty;
+        }
+    }
     // 1 in 10: a descendant keeps stdout open after the shell has exited and writes the tail late
     let late = if out.len >= 2 && rng.chance(1, 10) { Some((*rng.pick(&[150u64, 600, 1400]), rng.range(1, (out.len / 2) as u64) as usize)) } else { None };
     let out_actual = out.bytes().len();
@@ -294,8 +322,14 @@ fn lossy(b: &[u8]) -> String {
     String::from_utf8_lossy(b).into_owned()
 }
 
-fn is_text(b: &[u8]) -> bool {
+fn is_valid_utf8(b: &[u8]) -> bool {
     std::str::from_utf8(b).is_ok()
+}
+
+/// Valid UTF-8, or valid UTF-8 pieces separated by bytes that are invalid anywhere (0xFF / 0xFE): the
+/// lossy decoding of such data is the same however it is cut, as long as no valid character is split.
+fn is_text(b: &[u8]) -> bool {
+    b.split(|x| *x == 0xFF || *x == 0xFE).all(|piece| std::str::from_utf8(piece).is_ok())
 }
 
 struct PageResult {
@@ -306,7 +340,13 @@ struct PageResult {
 }
 
 /// Page through stored output from offset 0, advancing by the number of bytes each page reports.
-fn page_through(mut fetch: impl FnMut(u64, usize) -> Result<PageResult, String>, stored: &[u8], page_sizes: &[usize], what: &str, stats: &mut RunStats) -> Result<Option<Violation>, String> {
+fn page_through(fetch: impl FnMut(u64, usize) -> Result<PageResult, String>, stored: &[u8], page_sizes: &[usize], what: &str, stats: &mut RunStats) -> Result<Option<Violation>, String> {
+    page_through_opt(fetch, stored, page_sizes, what, stats, false)
+}
+
+/// `ignore_line_breaks`: the channel the pages come through splits text into lines (tool stdout), so
+/// the texts are compared with every CR and LF removed from both sides.
+fn page_through_opt(mut fetch: impl FnMut(u64, usize) -> Result<PageResult, String>, stored: &[u8], page_sizes: &[usize], what: &str, stats: &mut RunStats, ignore_line_breaks: bool) -> Result<Option<Violation>, String> {
     let text = is_text(stored);
     let mut offset = 0u64;
     let mut got = String::new();
@@ -345,7 +385,12 @@ fn page_through(mut fetch: impl FnMut(u64, usize) -> Result<PageResult, String>,
         return Ok(Some(viol("pages_overrun", format!("pages_overrun:{what}"), format!("{what}: pages end at {offset}, {} bytes stored", stored.len()))));
     }
     if text {
-        let want = lossy(stored);
+        let mut want = lossy(stored);
+        if ignore_line_breaks {
+            want.retain(|c| c != '\n' && c != '\r');
+            got.retain(|c| c != '\n' && c != '\r');
+            stats.bump("paged_text_compared_without_line_breaks", 1);
+        }
         if got != want {
             let pos = got.bytes().zip(want.bytes()).position(|(a, b)| a != b).unwrap_or(got.len().min(want.len()));
             let ctx = |s: &str| {
@@ -360,7 +405,7 @@ fn page_through(mut fetch: impl FnMut(u64, usize) -> Result<PageResult, String>,
                 }
                 s.get(a2..b).unwrap_or("").to_string()
             };
-            return Ok(Some(viol("paged_output_differs", format!("paged_output_differs:{what}"), format!("{what}: reading {} stored bytes of valid UTF-8 in pages of {:?} bytes gives different text at byte {pos}: got …{:?}… want …{:?}…", stored.len(), page_sizes, ctx(&got), ctx(&want)))));
+            return Ok(Some(viol("paged_output_differs", format!("paged_output_differs:{what}"), format!("{what}: reading {} stored bytes of text in pages of {:?} bytes gives different text at byte {pos}: got …{:?}… want …{:?}…", stored.len(), page_sizes, ctx(&got), ctx(&want)))));
         }
     }
     Ok(None)
@@ -431,7 +476,7 @@ fn run_foreground(sc: &Scenario, env: &Env, stats: &mut RunStats) -> Result<Opti
         if norm(&model_lines) != norm(&got_lines) {
             return Ok(Some(viol("preview_not_a_prefix", format!("preview_not_a_prefix:{what}"), format!("{what}: preview ({} lines) is not the text of the first {used} bytes of the output ({} lines)", got_lines.len(), model_lines.len()))));
         }
-        if is_text(expected) && used + 3 < limit.min(expected.len()) {
+        if is_valid_utf8(expected) && used + 3 < limit.min(expected.len()) {
             return Ok(Some(viol("preview_shorter_than_limit", format!("preview_shorter_than_limit:{what}"), format!("{what}: preview uses {used} bytes although limit is {limit} and the output has {}", expected.len()))));
         }
         let truncated = a["truncated"].as_bool().unwrap_or(false);
@@ -478,30 +523,11 @@ fn run_foreground(sc: &Scenario, env: &Env, stats: &mut RunStats) -> Result<Opti
             let content: Vec<String> = ev.iter().filter_map(|e| if let rip_kernel::EventKind::ToolStdout { chunk, .. } = &e.kind { Some(chunk.clone()) } else { None }).collect();
             Ok(PageResult { content: content.join("\n"), bytes: art["bytes"].as_u64().unwrap_or(0) as usize, total: art["total_bytes"].as_u64().unwrap_or(0), truncated: art["truncated"].as_bool().unwrap_or(false) })
         };
-        // the tool runner splits tool stdout into lines: compare page text line-insensitively only
-        // when the stored text has no line breaks inside a page; otherwise compare byte counts
+        // the tool runner splits tool stdout into lines: when the stored text has line breaks the page
+        // texts are compared with all line breaks removed from both sides
         let single_line = !stored.contains(&b'\n') && !stored.contains(&b'\r');
-        let stored_for_text: Vec<u8> = if single_line { stored.clone() } else { Vec::new() };
-        if single_line {
-            if let Some(v) = page_through(&mut fetch, &stored_for_text, &sc.page_sizes, &format!("{what}_artifact_fetch"), stats)? {
-                return Ok(Some(v));
-            }
-        } else {
-            // binary-safe walk: sizes and flags only
-            let mut offset = 0u64;
-            let mut k = 0;
-            while offset < stored.len() as u64 {
-                let size = sc.page_sizes[k % sc.page_sizes.len()];
-                k += 1;
-                let p = fetch(offset, size)?;
-                if p.total != stored.len() as u64 || p.bytes > size || (p.bytes == 0) {
-                    return Ok(Some(viol("page_meta_wrong", format!("page_meta_wrong:{what}_artifact_fetch"), format!("{what}: page at {offset} max {size}: bytes {} total {} (stored {})", p.bytes, p.total, stored.len()))));
-                }
-                offset += p.bytes as u64;
-                if k > 100_000 {
-                    return Err("pager did not terminate".into());
-                }
-            }
+        if let Some(v) = page_through_opt(&mut fetch, &stored, &sc.page_sizes, &format!("{what}_artifact_fetch"), stats, !single_line)? {
+            return Ok(Some(v));
         }
     }
     Ok(None)
@@ -670,7 +696,7 @@ fn run_task(sc: &Scenario, env: &Env, stats: &mut RunStats) -> Result<Option<Vio
             let limit = sc.max_bytes.min(8192);
             let total_after = l["bytes_total"].as_u64().unwrap_or(0);
             let read = expected.get(prev_total as usize..total_after as usize).unwrap_or(&[]);
-            if complete && is_text(expected) && is_text(read) {
+            if complete && is_valid_utf8(expected) && is_valid_utf8(read) {
                 if chunk.len() > limit || !read.starts_with(chunk.as_bytes()) {
                     return Ok(Some(viol("delta_chunk_not_a_prefix", format!("delta_chunk_not_a_prefix:{what}"), format!("{what}: frame seq {} chunk of {} bytes is not a prefix (limit {limit}) of the {} bytes the process wrote at {prev_total}", f.seq, chunk.len(), read.len()))));
                 }
